@@ -204,5 +204,24 @@ theorem fromDag_nodes {full : G} {isTask : Nat → Bool} {prio : Nat → Int} {f
   · cases h
   · cases h; rfl
 
+/-- A non-empty list has an element of minimal rank. -/
+theorem exists_min_rank (rank : Nat → Nat) : ∀ (l : List Nat), l ≠ [] →
+    ∃ x ∈ l, ∀ y ∈ l, rank x ≤ rank y
+  | [], h => absurd rfl h
+  | [a], _ => ⟨a, by simp, by simp⟩
+  | a :: b :: t, _ => by
+    obtain ⟨m, hm, hmin⟩ := exists_min_rank rank (b :: t) (by simp)
+    by_cases hle : rank a ≤ rank m
+    · refine ⟨a, by simp, ?_⟩
+      intro y hy
+      rcases List.mem_cons.1 hy with rfl | hy
+      · exact Nat.le_refl _
+      · exact Nat.le_trans hle (hmin y hy)
+    · refine ⟨m, List.mem_cons_of_mem _ hm, ?_⟩
+      intro y hy
+      rcases List.mem_cons.1 hy with rfl | hy
+      · omega
+      · exact hmin y hy
+
 end Sorter
 end Pytask
